@@ -25,7 +25,7 @@ def build(tier, seed):
         entries = [e for e in entries if e["tags"] & keep and not ("marker" in e["tags"] and "sbl" in e["tags"])]
         # list / nested comparisons multiply paths: the quick tier keeps the flat positioned / placeholder declarations
         # (the subject of this property) and a few representatives of lists, optionals and nesting
-        entries = [e for e in entries if "ctl8" not in e["tags"]]
+        entries = [e for e in entries if "ctl8" not in e["tags"] and not e["key"].startswith("g_bridge")]
     obs = []
     for e in entries:
         lmax = e["lq"] if tier == "quick" else e["lt"]
